@@ -34,6 +34,10 @@ func c05Operands() []gen.Expr {
 		&gen.EArr{[]gen.Expr{&gen.ENum{"1"}, &gen.ENum{"2"}}}, &gen.EArr{nil}, &gen.EArr{[]gen.Expr{&gen.EStr{"a"}, &gen.EStr{"b"}}},
 		&gen.EGroup{&gen.EHash{[]gen.Expr{&gen.EStr{"k"}}, []gen.Expr{&gen.ENum{"2"}}}},
 		&gen.EName{"n1"}, &gen.EName{"s1"}, &gen.EName{"arr1"}, &gen.EName{"n4"},
+		// ranges as operands (the haystack of 'in' above all: what is in 0..3 is decided like for any other list)
+		&gen.EGroup{&gen.EBin{"..", &gen.ENum{"0"}, &gen.ENum{"3"}}}, &gen.EGroup{&gen.EBin{"..", &gen.EGroup{&gen.EUn{"-", &gen.ENum{"1"}}}, &gen.ENum{"1"}}},
+		// integer literals with leading zeros are decimal
+		&gen.ENum{"010"}, &gen.ENum{"0100"},
 	}
 }
 
